@@ -56,6 +56,48 @@ _COVERED: set = set()
 _SEQ_CACHE: Dict[int, Tuple[Any, bool]] = {}
 
 
+CVC5_BIN = "/usr/bin/cvc5"
+CVC5_TIMEOUT_MS = int(_os0.environ.get("PYVC_CVC5_TIMEOUT_MS", "20000"))
+
+
+def sanitize_smt2(t: str) -> str:
+    """z3's printer leaves symbols like x' unquoted and prints its internal seq.nth_i / seq.nth_u
+    (in-bounds / out-of-bounds halves of seq.nth): make the text standard SMT-LIB"""
+    import re
+
+    names = set(re.findall(r"\(declare-(?:fun|const) ([^\s|()]+) ", t))
+    bad = [n for n in names if not re.fullmatch(r"[A-Za-z0-9~!@$%^&*_\-+=<>.?/]+", n)]
+    for n in sorted(bad, key=len, reverse=True):
+        t = re.sub(r"(?<=[\s(])" + re.escape(n) + r"(?=[\s)])", "|" + n + "|", t)
+    t = t.replace("seq.nth_i", "seq.nth").replace("seq.nth_u", "seq.nth")
+    return t
+
+
+def cvc5_check(smt2: str):
+    """ask cvc5 (CLI, --strings-exp); returns z3.sat / z3.unsat or None (unknown, error, absent)"""
+    import subprocess
+    import tempfile
+
+    if not _os0.path.exists(CVC5_BIN):
+        return None
+    try:
+        with tempfile.NamedTemporaryFile("w", suffix=".smt2", delete=False) as f:
+            f.write("(set-logic ALL)\n" + sanitize_smt2(smt2))
+            path = f.name
+        try:
+            out = subprocess.run([CVC5_BIN, "--strings-exp", f"--tlimit={CVC5_TIMEOUT_MS}", path], capture_output=True, text=True, timeout=CVC5_TIMEOUT_MS / 1000 + 5)
+        finally:
+            _os0.unlink(path)
+        first = (out.stdout.strip().splitlines() or [""])[0].strip()
+        if first == "sat":
+            return z3.sat
+        if first == "unsat":
+            return z3.unsat
+    except Exception:
+        return None
+    return None
+
+
 def has_seq(e) -> bool:
     """does the term mention a sequence/string sorted sub-term?  (decides which solver answers
     feasibility queries)"""
@@ -108,6 +150,7 @@ class Ctx:
         # path condition, so "unsat" from it is conclusive and "sat" merely means "explore it"
         self.fresh_retries = 0
         self.incr_bad = False
+        self.seq_defs = []  # (sequence term, index -> element term): pointwise definitions
         self._last_fresh = None
         self.fast = z3.Solver()
         self.fast.set("timeout", SOLVER_TIMEOUT_MS)
@@ -317,6 +360,10 @@ class Ctx:
     def prove(self, name: str, cond, clause: str, where: str, note: str = "", assume_after=True, props=()):
         if isinstance(cond, bool):
             cond = z3.BoolVal(cond)
+        pn = getattr(self, "pending_note", None)
+        if pn:
+            note = f"{note}; {pn}" if note else pn
+            self.pending_note = None
         t0 = time.perf_counter()
         if self.known_region is None and not has_seq(cond):
             # the string-free part of the path condition often suffices (unsat there is unsat)
@@ -347,9 +394,18 @@ class Ctx:
                 self._mark_incr_bad()
                 r = self._fresh_check(())
                 model_solver = self._last_fresh
+        backend = "z3"
+        if r == z3.unknown:
+            # z3 (incremental and two fresh attempts) gave up: second back end
+            r2 = cvc5_check(self.solver.to_smt2())
+            if r2 is not None:
+                r = r2
+                backend = "cvc5"
         model = None
         smt2 = None
-        if r == z3.sat:
+        if r == z3.sat and backend == "cvc5":
+            model = {}
+        elif r == z3.sat:
             try:
                 m = model_solver.model()
                 model = self._model_inputs(m)
@@ -378,6 +434,7 @@ class Ctx:
                 path=tuple(self.labels),
                 ms=ms,
                 model=model,
+                backend=backend,
                 pc_size=self.n_assumed,
                 note=note,
                 smt2=smt2 if status != "unsat" else None,
@@ -473,7 +530,11 @@ def explore(unit: str, run: Callable[[Ctx], None], region=None, work=None, split
             run(ctx)
             res.paths += 1
         except PathEnd:
-            res.cut_paths += 1
+            if any(o.status != "unsat" for o in ctx.obligations):
+                # cut by assuming an obligation that failed: the path itself was feasible
+                res.paths += 1
+            else:
+                res.cut_paths += 1
         except Unsupported as e:
             res.undecided.append(f"{unit}: unsupported: {e} [path {' '.join(ctx.labels)}]")
         except ContractError as e:
